@@ -173,6 +173,22 @@ Section D.
     cbn. rewrite (ALL x (or_introl eq_refl)). f_equal. apply IH. intros y I. apply ALL. right. exact I.
   Qed.
 
+  (* the rigs reader keeps a member iff it is a declared sensor or the id of ANY rig of the file, wherever
+     the rows of that rig stand: nested rigs load the same parent-first, child-first or shuffled *)
+  Theorem read_rigs_members sids t (rs : table) :
+    read_rows O fk_rigs (table_of_text t) = Ok rs -> keys_nodup O 2 rs = true ->
+    (forall r, In r rs -> ~ In (key1 O r) sids) ->
+    exists tb, read_rigs O sids t = Ok (tb, map (key1 O) rs) /\
+               forall r, In r tb <-> In r rs /\ (In (dev_of O fk_rigs r) sids \/ In (dev_of O fk_rigs r) (map (key1 O) rs)).
+  Proof.
+    intros H N C. unfold read_rigs. rewrite H.
+    assert (E : existsb (fun r => tmem (key1 O r) sids) rs = false).
+    { destruct (existsb _ rs) eqn:X; [|reflexivity]. apply existsb_exists in X. destruct X as [r [I T]].
+      apply tmem_In in T. exfalso. exact (C r I T). }
+    rewrite E, (of_rows_nodup O false 2 rs N). eexists. split; [reflexivity|].
+    intro r. rewrite filter_In, orb_true_iff, !tmem_In. tauto.
+  Qed.
+
   (* ---------------------------------------------------------------- feature descriptor files *)
   Lemma canon_row_id sch (r : row) : forallb no_canon_ty (s_fixed sch) = true -> s_group sch = [] ->
     row_wf O sch r = true -> canon_row O sch r = r.
